@@ -31,6 +31,9 @@ UNIVERSES = {
     # children of a tracked parent (output id 50+p = output 0 of transaction p): spent outputs resolved locally and by the fetcher
     'P4': {'nt': 4, 'ins': [[1], [2, 51], [51], [2]], 'rel': [True] * 4, 'blk': [[1], [3]],
            'subst': {'Ins <- Ins4': 'Ins <- InsP', 'Rel <- Rel4': 'Rel <- RelP', 'Blk <- Blk4': 'Blk <- BlkP'}},
+    # four spenders of one outpoint; the block confirms the fourth while up to three are in the mempool
+    'Q4': {'nt': 4, 'ins': [[1], [1], [1], [1]], 'rel': [True] * 4, 'blk': [[4]],
+           'subst': {'Ins <- Ins4': 'Ins <- InsQ', 'Rel <- Rel4': 'Rel <- RelQ', 'Blk <- Blk4': 'Blk <- BlkQ'}},
     'U5': {'nt': 5, 'ins': [[1], [2], [2, 3], [3], [1, 2]], 'rel': [True] * 5, 'blk': [[4]],
            'subst': {'NT = 4': 'NT = 5', 'Ins <- Ins4': 'Ins <- Ins5', 'Rel <- Rel4': 'Rel <- Rel5', 'Blk <- Blk4': 'Blk <- Blk5'}},
     'U3b': {'nt': 3, 'ins': [[1], [1], [2]], 'rel': [True, False, False], 'blk': [[2, 3]],
@@ -171,6 +174,7 @@ def standard(prop, formulas, text_rule, nontrivial, argv, invariants=None, extra
         scripts += gen(chk, 'R3b', 50 * k, 45, seed + 6)
         scripts += gen(chk, 'R3', 30 * k, 45, seed + 7, race=True)
         scripts += gen(chk, 'P4', 70 * k, 45, seed + 8)
+        scripts += gen(chk, 'Q4', 60 * k, 40, seed + 9)
     res = run(chk, scripts, formulas)
     for name, r in models:
         if r.violated and ('model-cex-%s' % name) not in res['bad_traces']:
